@@ -20,7 +20,7 @@ def make_system(info, rng, stratum=None):
         n, T = int(rng.integers(2, 5)), int(rng.integers(100, 161))
     L = int(rng.integers(1, 4))
     if stratum == "short-wide" and info != "geometric_knn":     # corner of the quantifier: many lagged predictors, shortest admissible series
-        n, L, T = int(rng.integers(3, 5)), 3, int(rng.integers(100, 104))
+        n, L, T = (4 if rng.random() < 0.7 else 3), 3, int(rng.integers(100, 104))
     u = int(rng.integers(0, n)); v = int((u + 1 + rng.integers(0, n - 1)) % n)
     tau = int(rng.integers(1, L + 1))
     if info == "poisson":
@@ -86,7 +86,7 @@ def check(run, driver):
         for method in METHODS:
             heavy = method in ("standard", "alternative")
             if info in ("gaussian",):
-                m = 60 if thorough else (10 if heavy else 16)
+                m = 120 if thorough else (40 if heavy else 16)
             elif info in ("knn", "kde"):
                 m = 60 if thorough else (6 if heavy else 12)
             elif info == "poisson":
@@ -105,7 +105,7 @@ def check(run, driver):
     strata = []
     for info in ("gaussian", "knn", "kde"):
         for method in ("information_lasso", "lasso"):
-            for _ in range(16 if thorough else 6):
+            for _ in range(24 if thorough else 12):
                 strata.append((info, method, int(rng.integers(0, 2**31)), 40, "short-wide"))
     for method in ("standard", "alternative"):
         for _ in range(16 if thorough else 5):
@@ -138,7 +138,15 @@ def check(run, driver):
                                       "(premises of planted_recovered hold, conclusion fails)", case, {"clause": "conditional_recovery", "estimator": info, "method": method})
                 pooled.append(r)
             ok = sum(1 for r in rs if r.get("present")); m = len(rs)
-            table.append({"estimator": info, "method": method, "runs": m, "recovered": ok, "planted_is_largest": sum(1 for r in rs if r.get("largest"))})
+            row = {"estimator": info, "method": method, "runs": m, "recovered": ok, "planted_is_largest": sum(1 for r in rs if r.get("largest"))}
+            if m >= 30:
+                q_ = 0.75 if info == "geometric_knn" else 0.98
+                row["binomial_lower_tail"] = binom_tail(m, 1 - q_, m - ok)
+                if row["binomial_lower_tail"] < BUDGET / (ntests + 8):
+                    bad = next(r for r in rs if not r.get("present"))
+                    run.prop_fail("recovery frequency of the planted edge is below the required rate under one selection method", {"estimator": info, "method": method, "runs": m, "recovered": ok, "example_failure": bad},
+                                  {"clause": "frequency", "estimator": info, "method": method}, {"binomial_lower_tail": row["binomial_lower_tail"]})
+            table.append(row)
         m = len(pooled)
         if not m:
             continue
